@@ -1,5 +1,6 @@
 //! wf-serde — engines for the serialization layer (C26, C27).
 #![allow(clippy::all)]
+mod codec;
 mod readadapter;
 
 fn main() {
@@ -7,8 +8,9 @@ fn main() {
     wfcommon::util::install_quiet_panic_hook();
     let code = match args.get(1).map(|s| s.as_str()) {
         Some("readadapter") => readadapter::main(&args[2..]),
+        Some("codec") => codec::main(&args[2..]),
         _ => {
-            eprintln!("usage: wf-serde <readadapter> ...");
+            eprintln!("usage: wf-serde <readadapter|codec> ...");
             2
         },
     };
